@@ -142,6 +142,16 @@ def run(ctx):
     chk.analysed["solver_state_roles"] = dict(ROLE)
     eng = ctx.engine(relevant=_rel, max_depth=5, unroll=1, budget=120000)
     paths = eng.paths(solve, cls)
+    if not any(e.kind == "call" and canon(e.data.get("attr")) == "Solve" for p in paths for e in p.events):
+        # Solve() handed to a wrapper as a value (`self._timed(self.solver.Solve, self.model)`): the written-out
+        # solve has the call in plain sight
+        try:
+            solve_f = ctx.norm.flat(solve, depth=4)
+            paths_f = eng.paths(solve_f, cls)
+            if any(e.kind == "call" and canon(e.data.get("attr")) == "Solve" for p in paths_f for e in p.events):
+                solve, paths = solve_f, paths_f
+        except AnalysisError:
+            pass
     chk.analysed["solve_paths"] = len(paths)
 
     # ---------------------------------------------------------------- R03.a
@@ -229,7 +239,12 @@ def run(ctx):
     ctx.attempt(_domains, ctx, cls)
     # integer model data must not pass through the float32 views of the instance
     Fl = ctx.norm.flat(solve, depth=3)
-    lossy = [n for n in own_nodes(Fl.node) if isinstance(n, ast.Attribute) and n.attr in ("durations_matrix_array", "machines_matrix_array")]
+    lossy = [
+        n for n in own_nodes(Fl.node)
+        if isinstance(n, ast.Attribute) and n.attr in ("durations_matrix_array", "machines_matrix_array")
+        # reading only the shape of the view loses nothing
+        and not (isinstance(Fl.module.parents.get(n), ast.Attribute) and Fl.module.parents.get(n).attr in ("shape", "ndim", "size"))
+    ]
     for n in lossy[:1]:
         chk.violation(
             "R03.b", Fl, n,
@@ -265,6 +280,15 @@ def _domains(ctx, cls):
             raise AnalysisError(f"{F.loc(c)}: NewIntVar bounds not positional")
         lo, hi = c.args[0], c.args[1]
         lo_t, hi_t = ctx.norm.xtext(F, lo).replace(" ", ""), ctx.norm.xtext(F, hi).replace(" ", "")
+        if hi_t.startswith("self.") and hi_t[5:].isidentifier():
+            # a bound kept on the solver for the duration of one solve (`self._horizon = instance.total_duration`):
+            # the one value the written-out solve stores there
+            sto = [
+                x for x in own_nodes(F.node)
+                if isinstance(x, ast.Assign) and len(x.targets) == 1 and ast.unparse(x.targets[0]) == hi_t
+            ]
+            if len(sto) == 1:
+                hi_t = ctx.norm.xtext(F, sto[0].value).replace(" ", "")
         lo_ok = lo_t == "0"
         hi_ok = hi_t.endswith(".total_duration") and not any(ch in hi_t for ch in "-/(")
         if not (lo_ok and hi_ok):
@@ -310,6 +334,8 @@ def _iter_text(ctx, F, lp):
 def _over_all_operations(ctx, F, node):
     """node sits inside `for job in instance.jobs: for operation in job`."""
     its = [_iter_text(ctx, F, lp) for lp in _loops_of(F, node)]
+    # `enumerate(instance.jobs)` is the same walk with an index
+    its = [t[len("enumerate("):-1] if t.startswith("enumerate(") and t.endswith(")") and "," not in t else t for t in its]
     return any(t.endswith("instance.jobs") for t in its) and not any(
         isinstance(x, (ast.Break, ast.Continue)) for lp in _loops_of(F, node) if isinstance(lp, ast.For) for x in ast.walk(lp)
     )
@@ -555,6 +581,20 @@ def _shapes(ctx, cls):
             e = ast.unparse(src.elt)
             if e.endswith("[1]") or (isinstance(g.target, ast.Tuple) and isinstance(g.target.elts[1], ast.Tuple) and ast.unparse(g.target.elts[1].elts[1]) == e):
                 ok = True
+    if not ok and c.args and _is_objective_var(ctx, F, c.args[0]) and isinstance(src, (ast.ListComp, ast.GeneratorExp)) and len(src.generators) == 1:
+        # the end variable of the last operation of every job: within a job the precedence constraints (checked
+        # above: every consecutive pair) make the last operation end last, so this is the same maximum
+        g = src.generators[0]
+        jv = g.target.id if isinstance(g.target, ast.Name) else None
+        e = src.elt
+        if (
+            jv is not None and ast.unparse(g.iter).endswith("instance.jobs")
+            and all(ast.unparse(t_) in (jv, f"len({jv}) > 0", f"{jv} != []") for t_ in g.ifs)
+            and isinstance(e, ast.Subscript) and ast.unparse(e.slice) == "1" and isinstance(e.value, ast.Subscript)
+            and ast.unparse(e.value.value) == f"self.{ROLE['table']}" and ast.unparse(e.value.slice) == f"{jv}[-1]"
+            and found["prec"]
+        ):
+            ok = True
     if ok:
         chk.ok("R03.b", solve.qualname, F.loc(c), "makespan == max over the end variables of all operations")
     else:
